@@ -223,5 +223,10 @@ example : (abs (reach 1 (0 : Int)
     or clause; DESIGN.md §11.6a) -/
 theorem metric_skeletons : Skeletons.MetricShape := Skeletons.metric_shape
 theorem datum_skeletons : Skeletons.DatumShape := Skeletons.datum_shape
+theorem f_datum_datum_skeletons : Skeletons.F_datum_datumShape := Skeletons.f_datum_datum_shape
+theorem f_metrics_metric_skeletons : Skeletons.F_metrics_metricShape := Skeletons.f_metrics_metric_shape
+theorem f_datum_int_skeletons : Skeletons.F_datum_intShape := Skeletons.f_datum_int_shape
+theorem f_datum_float_skeletons : Skeletons.F_datum_floatShape := Skeletons.f_datum_float_shape
+theorem f_datum_string_skeletons : Skeletons.F_datum_stringShape := Skeletons.f_datum_string_shape
 
 end MtailVerif.C09
